@@ -6,6 +6,7 @@
 #include <arpa/inet.h>
 
 #include <assert.h>
+#include <stddef.h>
 #include <stdlib.h>
 #include <string.h>
 
@@ -246,11 +247,23 @@ prettyprint_ipv6(struct sockaddr * name, size_t namelen)
 
 /* Prettyprint a UNIX address. */
 static char *
-prettyprint_unix(struct sockaddr_un * name)
+prettyprint_unix(struct sockaddr * name, size_t namelen)
 {
+	struct sockaddr_un sa_un;
+
+	/* Check name length: we need more than the family, and it must fit. */
+	if ((namelen <= offsetof(struct sockaddr_un, sun_path)) ||
+	    (namelen > sizeof(struct sockaddr_un)))
+		return (NULL);
+
+	/* Copy into a zeroed buffer for alignment and NUL-termination. */
+	memset(&sa_un, 0, sizeof(struct sockaddr_un));
+	memcpy(&sa_un, name, namelen);
+	if (memchr(sa_un.sun_path, '\0', sizeof(sa_un.sun_path)) == NULL)
+		return (NULL);
 
 	/* Just strdup the path. */
-	return (strdup(name->sun_path));
+	return (strdup(sa_un.sun_path));
 }
 
 /**
@@ -272,7 +285,7 @@ sock_addr_prettyprint(const struct sock_addr * sa)
 	case AF_INET6:
 		return (prettyprint_ipv6(sa->name, sa->namelen));
 	case AF_UNIX:
-		return (prettyprint_unix((struct sockaddr_un *)(sa->name)));
+		return (prettyprint_unix(sa->name, sa->namelen));
 	default:
 		return (strdup("Unknown address"));
 	}
